@@ -64,7 +64,9 @@ func raw(k *kv.Key) any {
 	}
 }
 
-func rsaKey(bits int, label string) *kv.Key { return &kv.Key{Type: sr.RSA, RSA: detkeys.RSA(bits, label)} }
+func rsaKey(bits int, label string) *kv.Key {
+	return &kv.Key{Type: sr.RSA, RSA: detkeys.RSA(bits, label)}
+}
 func ecKey(c elliptic.Curve, label string) *kv.Key {
 	k := detkeys.ECDSA(c, label)
 	return &kv.Key{Type: sr.FromECDSA(&k.PublicKey).Type, ECDSA: k}
